@@ -20,6 +20,12 @@ def run(ctx):
         "the decoded Go value is described by reflection (harness/cmd/c06/walk.go); pointers are compared by unfolding",
         "time.Local is a fixed zero-offset zone in the executor",
     ]
+    # no child process (coqc, extraction, executors) may grow without bound
+    try:
+        import resource
+        resource.setrlimit(resource.RLIMIT_AS, (20 * 1024 ** 3, 20 * 1024 ** 3))
+    except Exception:
+        pass
     gen = hv.regen_gen()
     ctx.note("tables", {k: v for k, v in gen.items() if k in ("DecTables",)})
     ctx.prove()
